@@ -6,7 +6,11 @@ import TF.Proofs.Shah
 import TF.Proofs.XFieldInv
 import TF.Proofs.BFieldMore
 import TF.Proofs.XFieldMore
+import TF.Proofs.XFieldK
+import TF.Proofs.XFieldCyc
 import TF.Proofs.GenBridgeBField
+import TF.Proofs.GenBridgePacc
+import TF.Proofs.GenBridgeBFieldOk
 /-!
 # C01 — base and extension field arithmetic is exact and canonical
 
@@ -521,24 +525,55 @@ theorem xfe_get_cyclic_group_elements_bounded (g : XF.X3) (hg : TF.XFp.canon3 g)
   TF.XFp.x_cyclicGroup_some g hg m fuel hf
 example : TF.XFp.canon3 XF.one ∧ max 0 2 ≤ 1 + 1 := ⟨TF.XFInvProofs.canon3_one, by decide⟩
 
-/-- NOT YET PROVED (listed under `partial`): without a bound the extension-field loop ends for every non-zero `g`
-    (the multiplicative group of the field with `P³` elements is finite) -/
-def xfe_get_cyclic_group_elements_unbounded_terminates_statement : Prop :=
-  ∀ g : XF.X3, TF.XFp.canon3 g → g ≠ XF.zero → ∃ fuel l, XF.cyclicGroup fuel g none = some l
+/-- **`XFieldElement::get_cyclic_group_elements(None)` terminates for every non-zero element** and returns exactly the
+    powers up to the order.  The extension field `K = F_p[X]/(X³ − X + 1)` is a finite field with `P³` elements
+    (`TF/Proofs/XFieldK.lean`), so every non-zero `g` has a multiplicative order `k` — the least positive exponent with
+    `g^k = 1` (powers = repeated specification product `TF.Spec.xmul`), and `k ∣ P³ − 1`.  Without a bound the loop ends
+    after `max k 2 − 1` iterations (for every fuel `≥ max k 2 − 1`; `none` = still running) and returns the canonical
+    triples of `[1, g, g², …, g^(max k 2 − 1)]`: the whole cyclic group generated by `g` when `k ≥ 2`, `[1, 1]` for
+    `g = 1`.  Zero without a bound never returns (`xfe_get_cyclic_group_elements_exact`). -/
+theorem xfe_get_cyclic_group_elements_unbounded_exact (g : XF.X3) (hg : TF.XFp.canon3 g) (hnz : g ≠ XF.zero) :
+    ∃ k, 0 < k ∧ k ∣ P ^ 3 - 1 ∧ TF.XFp.xnpow (XF.toVal g) k = TF.Spec.xone ∧
+      (∀ j, 0 < j → j < k → TF.XFp.xnpow (XF.toVal g) j ≠ TF.Spec.xone) ∧
+      ∀ fuel, max k 2 ≤ fuel + 1 →
+        ∃ l, XF.cyclicGroup fuel g none = some l ∧ (∀ x ∈ l, TF.XFp.canon3 x) ∧ l.length = max k 2 ∧
+          l.map XF.toVal = (List.range (max k 2)).map (TF.XFp.xnpow (XF.toVal g)) :=
+  TF.XK.x_cyclicGroup_none g hg hnz
+example : TF.XFp.canon3 (XF.lift (bfe_new 281474976710656)) ∧ XF.lift (bfe_new 281474976710656) ≠ XF.zero ∧
+    XF.cyclicGroup 10 (XF.lift (bfe_new 281474976710656)) none =
+      some [XF.one, XF.lift (bfe_new 281474976710656), XF.lift (bfe_new 18446744069414584320),
+        XF.lift (bfe_new 18446462594437873665)] := by
+  refine ⟨⟨by unfold canon; decide, by unfold canon; decide, by unfold canon; decide⟩, by decide, by decide +kernel⟩
 
-/-- full statement of `FiniteField::batch_inversion` for `XFieldElement` (NOT YET PROVED, listed under `partial`): any
-    vector of non-zero elements is mapped to the vector of inverses -/
-def xfe_batch_inversion_statement : Prop :=
-  ∀ xs : List XF.X3, (∀ x ∈ xs, TF.XFp.canon3 x ∧ x ≠ XF.zero) →
-    ∃ rs, XF.batchInversion xs = some rs ∧ rs.length = xs.length ∧
-      ∀ i (h1 : i < rs.length) (h2 : i < xs.length), TF.XFp.canon3 rs[i] ∧ XF.mul rs[i] xs[i] = XF.one
+/-- the termination statement on its own: for every non-zero element some fuel suffices -/
+theorem xfe_get_cyclic_group_elements_unbounded_terminates (g : XF.X3) (hg : TF.XFp.canon3 g) (hnz : g ≠ XF.zero) :
+    ∃ fuel l, XF.cyclicGroup fuel g none = some l := by
+  obtain ⟨k, _, _, _, _, h⟩ := xfe_get_cyclic_group_elements_unbounded_exact g hg hnz
+  obtain ⟨l, hl, _⟩ := h (max k 2) (by omega)
+  exact ⟨max k 2, l, hl⟩
+example : TF.XFp.canon3 (0, BF.one, 0) ∧ ((0, BF.one, 0) : XF.X3) ≠ XF.zero :=
+  ⟨⟨by unfold canon; decide, by unfold canon; decide, by unfold canon; decide⟩, by decide⟩
 
-/-- proved part of `batch_inversion` on the extension field: the empty vector is returned unchanged and a vector
-    containing zero panics (the model is tied to the crate by correspondence; the harness checks `r·x = 1` on every run) -/
-theorem xfe_batch_inversion_partial (xs : List XF.X3) :
-    XF.batchInversion [] = some [] ∧ (XF.zero ∈ xs → XF.batchInversion xs = none) :=
-  ⟨rfl, TF.XFp.x_batchInversion_zero xs⟩
-example : XF.zero ∈ [XF.one, XF.zero] := by decide
+/-- **`FiniteField::batch_inversion` for `XFieldElement`**: any vector of non-zero elements (canonical coefficient
+    words) is mapped to the vector of their inverses — same length, entry `i` is canonical, a two-sided inverse of
+    `xs[i]` for the word-level product `XF.mul`, and equal to what `XFieldElement::inverse` returns on `xs[i]`;
+    a vector containing zero panics; the empty vector is returned unchanged.  (The two loops are analysed for an
+    arbitrary multiplicative map into a field and instantiated with the embedding of canonical triples into
+    `F_p[X]/(X³ − X + 1)`, `TF/Proofs/XFieldK.lean`.) -/
+theorem xfe_batch_inversion_exact (xs : List XF.X3) :
+    ((∀ x ∈ xs, TF.XFp.canon3 x ∧ x ≠ XF.zero) →
+      ∃ rs, XF.batchInversion xs = some rs ∧ rs.length = xs.length ∧
+        ∀ i (h1 : i < rs.length) (h2 : i < xs.length), TF.XFp.canon3 rs[i] ∧ XF.mul rs[i] xs[i] = XF.one ∧
+          XF.mul xs[i] rs[i] = XF.one ∧ XF.inverse xs[i] = some rs[i]) ∧
+    (XF.zero ∈ xs → XF.batchInversion xs = none) ∧
+    XF.batchInversion [] = some [] :=
+  ⟨TF.XK.x_batchInversion_spec xs, TF.XFp.x_batchInversion_zero xs, rfl⟩
+example : (∀ x ∈ [XF.one, (0, BF.one, 0)], TF.XFp.canon3 x ∧ x ≠ XF.zero) ∧ XF.zero ∈ [XF.one, XF.zero] := by
+  refine ⟨fun x hx => ?_, by decide⟩
+  simp only [List.mem_cons, List.not_mem_nil, or_false] at hx
+  rcases hx with rfl | rfl
+  · exact ⟨TF.XFInvProofs.canon3_one, by decide⟩
+  · exact ⟨⟨by unfold canon; decide, by unfold canon; decide, by unfold canon; decide⟩, by decide⟩
 
 end TF.C01
 
@@ -595,5 +630,86 @@ theorem gen_mod_pow_inverse_transfer (a : Nat) (ha : a < P) :
   rw [hz] at h
   simpa [h] using hr
 example : (bfe_new 2) < P ∧ bfe_new 2 ≠ BF.zero := by decide +kernel
+
+end TF.C01
+
+/-! ## regenerated `power_accumulator` and the `_ok` flags of the regenerated loops
+
+`BFieldElement::power_accumulator::<N, M>` is regenerated too (`TF.Gen.Loops.bfe_power_accumulator`, `N` and `M` are
+ordinary arguments, arrays are lists, `result[j] = …` is `List.set`).  Proofs: `TF/Proofs/GenBridgePacc.lean`,
+`TF/Proofs/GenBridgeBFieldOk.lean`. -/
+namespace TF.C01
+open TF.Gen TF.BF TF.Model
+
+/-- regenerated `power_accumulator::<N, M>` = hand model in every lane, for all arrays of length `N` and all
+    `N, M < 2^64` (`usize` const generics): it terminates within its fuel and lane `k` is
+    `BF.powerAccumulator M base[k] tail[k]` -/
+theorem gen_power_accumulator_eq_model (N M : Nat) (base tail : List Nat) (hN : N < 2 ^ 64) (hM : M < 2 ^ 64)
+    (hb : base.length = N) (ht : tail.length = N) :
+    Loops.bfe_power_accumulator N M base tail = some (List.zipWith (BF.powerAccumulator M) base tail) :=
+  TF.GenBridge.BField.gen_power_accumulator_eq N M base tail hN hM hb ht
+example : Loops.bfe_power_accumulator 4 2 [bfe_new 10, bfe_new 100, bfe_new 1000, bfe_new 1]
+      [bfe_new 5, bfe_new 6, bfe_new 7, bfe_new 8] =
+    some [bfe_new 50000, bfe_new 600000000, bfe_new 7000000000000, bfe_new 8] := by decide +kernel
+
+/-- **transfer**: `power_accumulator_exact` for the code as it is in the source now — on arrays of `N` canonical words
+    the regenerated function returns `N` canonical words, lane `k` has the value `base[k]^(2^M) · tail[k]`, and no index
+    is out of bounds and nothing overflows on the way (`_ok`) -/
+theorem gen_power_accumulator_transfer (N M : Nat) (base tail : List Nat) (hN : N < 2 ^ 64) (hM : M < 2 ^ 64)
+    (hb : base.length = N) (ht : tail.length = N) (hbc : ∀ x ∈ base, x < P) (htc : ∀ x ∈ tail, x < P) :
+    ∃ r, Loops.bfe_power_accumulator N M base tail = some r ∧ r.length = N ∧
+      (∀ k (h : k < r.length) (h1 : k < base.length) (h2 : k < tail.length),
+        r[k] < P ∧ toF r[k] = toF base[k] ^ (2 ^ M) * toF tail[k]) ∧
+      Loops.bfe_power_accumulator_ok N M base tail = true := by
+  refine ⟨_, gen_power_accumulator_eq_model N M base tail hN hM hb ht, ?_, ?_,
+    TF.GenBridge.BField.gen_power_accumulator_ok_true N M base tail hN hM hb ht hbc htc⟩
+  · rw [List.length_zipWith, hb, ht, Nat.min_self]
+  · intro k h h1 h2
+    rw [List.getElem_zipWith]
+    exact power_accumulator_exact M _ _ (hbc _ (List.getElem_mem _)) (htc _ (List.getElem_mem _))
+example : Loops.bfe_power_accumulator_ok 2 3 [bfe_new 18446744069414584320, bfe_new 7] [bfe_new 2, bfe_new 0] = true ∧
+    (∀ x ∈ [bfe_new 18446744069414584320, bfe_new 7], x < P) := by decide +kernel
+
+/-- **the `_ok` flags of the regenerated loops hold on the documented domain** (canonical words, `u64` exponents): no
+    `u128` product overflows, Montgomery reduction does not overflow, no shift amount is out of range, the loop counters
+    stay in range (debug build = release build); the only assertion that can fail is `assert_ne!(self, zero)` of
+    `inverse`, and it fails exactly on zero -/
+theorem gen_loops_ok (a : Nat) (ha : a < P) :
+    (∀ e, e < 2 ^ 64 → Loops.bfe_mod_pow_ok a e = true ∧ Loops.bfe_mod_pow_u32_ok a e = true ∧
+      Loops.bfe_mod_pow_u64_ok a e = true) ∧
+    (∀ k, k < 2 ^ 64 → Loops.bfe_inverse_exp_ok a k = true) ∧
+    (Loops.bfe_inverse_ok a = true ↔ a ≠ BF.zero) ∧
+    Loops.bfe_square_ok a = true := by
+  refine ⟨fun e he => ?_, fun k hk => TF.GenBridge.BField.gen_exp_ok_true a k ha hk, ⟨fun h hz => ?_, fun h => ?_⟩,
+    TF.GenBridge.BField.square_ok_true a ha⟩
+  · have h := TF.GenBridge.BField.gen_mod_pow_ok_true a e ha he
+    exact ⟨h, h, h⟩
+  · rw [hz, TF.GenBridge.BField.gen_inverse_ok_zero] at h; cases h
+  · exact TF.GenBridge.BField.gen_inverse_ok_true a ha h
+example : bfe_new 18446744069414584320 < P ∧ bfe_new 18446744069414584320 ≠ BF.zero ∧
+    Loops.bfe_inverse_ok (bfe_new 18446744069414584320) = true := by decide +kernel
+
+end TF.C01
+
+/-! ## `get_cyclic_group_elements` on the extension field in terms of the multiplicative order -/
+namespace TF.C01
+open TF.Gen TF.BF TF.Model
+
+/-- **`XFieldElement::get_cyclic_group_elements(max)` for a non-zero element, with and without a bound** — the analogue
+    of `get_cyclic_group_elements_exact` for the extension field.  `k` is the multiplicative order of `g` (least positive
+    exponent with `g^k = 1`, `k ∣ P³ − 1`); the call returns exactly `L = TF.XK.cycLen k max` elements `[1, g, …, g^(L−1)]`,
+    `L = max k 2` without a bound, `L = min (max k 2) (max m 2)` with the bound `m` (a bound of 0 or 1 acts like 2), for
+    every fuel `≥ L − 1` -/
+theorem xfe_get_cyclic_group_elements_order_exact (g : XF.X3) (hg : TF.XFp.canon3 g) (hnz : g ≠ XF.zero) :
+    ∃ k, 0 < k ∧ k ∣ P ^ 3 - 1 ∧ TF.XFp.xnpow (XF.toVal g) k = TF.Spec.xone ∧
+      (∀ j, 0 < j → j < k → TF.XFp.xnpow (XF.toVal g) j ≠ TF.Spec.xone) ∧
+      ∀ (mx : Option Nat) (fuel : Nat), TF.XK.cycLen k mx ≤ fuel + 1 →
+        ∃ l, XF.cyclicGroup fuel g mx = some l ∧ (∀ x ∈ l, TF.XFp.canon3 x) ∧ l.length = TF.XK.cycLen k mx ∧
+          l.map XF.toVal = (List.range (TF.XK.cycLen k mx)).map (TF.XFp.xnpow (XF.toVal g)) :=
+  TF.XK.x_cyclicGroup_order g hg hnz
+example : TF.XK.cycLen 4 none = 4 ∧ TF.XK.cycLen 4 (some 3) = 3 ∧ TF.XK.cycLen 4 (some 0) = 2 ∧ TF.XK.cycLen 1 none = 2 ∧
+    XF.cyclicGroup 10 (XF.lift (bfe_new 281474976710656)) (some 3) =
+      some [XF.one, XF.lift (bfe_new 281474976710656), XF.lift (bfe_new 18446744069414584320)] := by
+  refine ⟨by decide, by decide, by decide, by decide, by decide +kernel⟩
 
 end TF.C01
